@@ -150,6 +150,8 @@ type FuncDecl struct {
 	Params  []Param  `json:"params"`
 	Results []*T     `json:"results"`
 	Body    string   `json:"body"`
+	// ResultInBody: occurrences of RESULT in Body are replaced by the rendered first result type
+	ResultInBody bool `json:"resultInBody,omitempty"`
 }
 
 // Method is a converter method (interface method or function variable).
@@ -480,7 +482,11 @@ func (r *renderer) funcDecl(f *FuncDecl) string {
 	for _, l := range f.Doc {
 		b.WriteString("//" + l + "\n")
 	}
-	b.WriteString(fmt.Sprintf("func %s%s(%s)%s {\n%s\n}\n", f.Name, tparams(f.TParams), r.params(f.Params), r.results(f.Results), f.Body))
+	body := f.Body
+	if f.ResultInBody && len(f.Results) > 0 {
+		body = strings.ReplaceAll(body, "RESULT", r.Expr(f.Results[0]))
+	}
+	b.WriteString(fmt.Sprintf("func %s%s(%s)%s {\n%s\n}\n", f.Name, tparams(f.TParams), r.params(f.Params), r.results(f.Results), body))
 	return b.String()
 }
 
